@@ -11,6 +11,8 @@ def struct_eq(a, b):
     """z3 Bool: the two VM values are the same term (Opaque leaves by identity)"""
     if isinstance(a, I) and isinstance(b, I):
         return a.e == b.e
+    if isinstance(a, FSet) or isinstance(b, FSet):
+        a, b = fp_plain(a), fp_plain(b)
     if z3.is_expr(a) and z3.is_expr(b):
         if z3.is_fp(a):
             return z3.Or(z3.fpEQ(a, b), z3.And(z3.fpIsNaN(a), z3.fpIsNaN(b))) if False else (z3.fpToIEEEBV(a) == z3.fpToIEEEBV(b))
